@@ -1913,6 +1913,12 @@ func (interp *Interpreter) cfg(root *node, sc *scope, importPath, pkgName string
 					err = c.cfgErrorf("cannot use %v (type %v) as type %v in return argument", c.ident, c.typ.cat, typ.cat)
 					return
 				}
+				if c.typ.untyped && isNumber(typ.TypeOf()) {
+					// A numeric constant must be representable in the result type.
+					if err = check.representable(c, typ.TypeOf()); err != nil {
+						return
+					}
+				}
 				if c.typ.cat == nilT {
 					// nil: Set node value to zero of return type
 					c.rval = reflect.New(typ.TypeOf()).Elem()
